@@ -69,7 +69,7 @@ Step(gg, e) ==
       [] e.e = "dlv" ->
             IF e.label = "genuine"
             THEN [gg EXCEPT !.ans = (e.k :> [from |-> e.from, kind |-> e.kind, t |-> e.t,
-                                             tgt |-> e.tgt, ttl |-> e.ttl]) @@ @,
+                                             tgt |-> e.tgt, ttl |-> e.ttl, xt_has |-> e.xt_has, xt |-> e.xt]) @@ @,
                             !.farthest = Max2(@, e.ttl),
                             !.tgtNow = @ \/ e.tgt,
                             !.lastRecv = e.t,
@@ -227,6 +227,20 @@ C09_NoPanic == At("end") => ~E.panic /\ ~E.aborted
 \* a capacity error, not with a panic / out-of-bounds access
 C07_Storm == At("end") /\ Cfg.storm /\ Len(E.fired) > 0 => E.result = "err:capacity" /\ ~E.panic /\ E.snap_err
 C07_StormSeq == At("send") => E.seq < 65535 /\ (Len(p.wire) > 0 => E.seq = p.wire[Len(p.wire)].seq + 1)
+
+(***************************************************************************)
+(* C14 (end to end): the extension objects reported for a completed probe   *)
+(* are exactly those the responding router encoded (ground truth)           *)
+(***************************************************************************)
+C14_E2E == At("pub") /\ Len(E.probes) = Len(p.wire) =>
+    \A i \in 1..Len(E.probes) :
+        LET pr == E.probes[i] w == p.wire[i] IN
+        (pr.st = "C" /\ w.k \in DOMAIN p.ans) =>
+            LET a == p.ans[w.k] IN
+            IF Cfg.ext
+            THEN /\ a.xt_has => pr.has_ext /\ pr.ext = (IF a.xt = <<>> THEN <<>> ELSE <<[mpls |-> a.xt]>>)
+                 /\ ~a.xt_has => pr.ext = <<>>
+            ELSE ~pr.has_ext
 
 (***************************************************************************)
 (* C11  every probe put on the wire is well-formed and as configured         *)
